@@ -263,6 +263,15 @@ func (r *sessRun) run(n int, seed int64) {
 		r.sess.Call(CallRoute, &Arg{Tag: "pre"}, nil, erpc.WithContext(cctx))
 		r.nseq++
 	}
+	if !strict && n%4 == 2 {
+		// ... or a push whose message setting panics inside Push (an unregistered transfer filter id panics by contract);
+		// Push recovers from it, nothing was written
+		func() {
+			defer func() { recover() }()
+			r.sess.Push(PushRoute, &Arg{Tag: "pre"}, erpc.WithXferPipe('?'))
+		}()
+		// (the setting runs before the sequence number is taken: none was used)
+	}
 	if !strict && n%4 == 3 {
 		// ... or a call that a PreWriteCall plugin of this side refused (nothing was written either)
 		r.sess.Call(preVetoRoute, &Arg{Tag: "pre"}, nil)
